@@ -15,7 +15,18 @@ def c_int(body):
     m = re.fullmatch(r"(?:U?INT\d+_C)?\(?\s*(-?(?:0x[0-9a-fA-F]+|\d+))\s*\)?", body.strip())
     if not m:
         return None
-    return int(m.group(1), 0)
+    lit = m.group(1)
+    # the value as the C compiler reads it: a leading zero makes the literal octal (and digits 8
+    # and 9 make it no number at all: reported as a value no declaration can have)
+    neg = lit.startswith("-")
+    body_ = lit.lstrip("-")
+    if len(body_) > 1 and body_[0] == "0" and body_[1] not in "xX":
+        try:
+            v = int(body_, 8)
+        except ValueError:
+            return -(10 ** 12)
+        return -v if neg else v
+    return int(lit, 0)
 
 
 def c_ops(text):
